@@ -26,7 +26,7 @@ FAILS=$(grep -E "^test result" /tmp/confirm-$NAME.tests | grep -vc " 0 failed")
 NRES=$(grep -cE "^test result" /tmp/confirm-$NAME.tests)
 echo "demo without change: rc=$RC_WITHOUT; with change: rc=$RC_WITH; test-result lines=$NRES with failures=$FAILS"
 if [ "$RC_WITHOUT" -ne 0 ] || [ "$RC_WITH" -eq 0 ] || [ "$FAILS" -ne 0 ] || [ "$NRES" -lt 3 ]; then
-  echo "NOT CONFIRMED"; tail -5 /tmp/confirm-$NAME.without /tmp/confirm-$NAME.with /tmp/confirm-$NAME.tests; exit 4
+  echo "NOT CONFIRMED"; tail -n 5 /tmp/confirm-$NAME.without /tmp/confirm-$NAME.with /tmp/confirm-$NAME.tests; exit 4
 fi
 rm -f "$WT/quil-rs/examples/seed_demo.rs"
 # --- our check against the changed tree
